@@ -472,7 +472,11 @@ func (s *Shard) SearchPoints(searchRequest models.SearchRequest) ([]models.Searc
 	if searchRequest.Limit == 0 {
 		searchRequest.Limit = len(finalResults)
 	}
-	finalResults = finalResults[min(searchRequest.Offset, len(finalResults)):min(searchRequest.Offset+searchRequest.Limit, len(finalResults))]
+	// The end index is computed from the remaining length so that a large
+	// offset cannot overflow offset+limit.
+	start := min(searchRequest.Offset, len(finalResults))
+	end := start + min(searchRequest.Limit, len(finalResults)-start)
+	finalResults = finalResults[start:end]
 	// ---------------------------
 	return finalResults, nil
 }
